@@ -448,14 +448,14 @@ def i_tsubcctv(ins, fmap):
 @__pcnpc
 def i_mulscc(ins, fmap):
     src1, src2, dst = ins.operands
-    s10 = fmap(src1[0:1])
-    multiplier = fmap(src2)
-    _rs1 = fmap(src1 >> 1)
-    _rs1[31:32] = fmap(nf ^ vf)
-    if fmap(y[0:1]) == 0:
-        op2 = cst(0, 32)
-    else:
-        op2 = fmap(src2)
+    _s1 = fmap(src1)
+    _s2 = fmap(src2)
+    _y = fmap(y)
+    # rs1 shifted right by one bit, N xor V being shifted in from the left:
+    _rs1 = composer([_s1[1:32], fmap(nf ^ vf)])
+    # the least significant bit of Y selects the addend (Y may be symbolic:
+    # this is a conditional expression, not a Python test)
+    op2 = tst(_y[0:1] == bit0, cst(0, 32), _s2).simplify()
     _r, carry, overflow = AddWithCarry(_rs1, op2)
     # update icc:
     fmap[nf] = _r[31:32]
@@ -464,10 +464,9 @@ def i_mulscc(ins, fmap):
     fmap[cf] = carry
     if dst is not g0:
         fmap[dst] = _r
-    # update Y:
-    _y = fmap(y >> 1)
-    _y[31:32] = s10
-    fmap[y] = _y
+    # update Y: shifted right by one bit, with the least significant bit
+    # of rs1 shifted in from the left
+    fmap[y] = composer([_y[1:32], _s1[0:1]])
 
 
 @__pcnpc
